@@ -746,7 +746,7 @@ Example schemaless_roundtrip_stage1_nonvacuous :
   /\ decode BER None (b ++ [7; 7])
      = Ok (DV (TExp (mkTag Appl true 2) (TExp (mkTag Ctx true 1) (TImp (utag false 10) TInt))) v, [7; 7])
   /\ sl_ty T = TExp (mkTag Appl true 2) (TExp (mkTag Ctx true 1) (TImp (utag false 10) TInt)).
-Proof. cbv zeta. repeat split; vm_compute; try reflexivity; discriminate. Qed.
+Proof. cbv zeta. repeat match goal with |- _ /\ _ => split end; vm_compute; try reflexivity; discriminate. Qed.
 
 Example schemaless_same_type_nonvacuous :
   let T := TExp (mkTag Priv true 1000) (TExp (mkTag Ctx true 0) (TStr 12)) in
@@ -758,7 +758,13 @@ Example schemaless_same_type_nonvacuous :
       stage1_val BER DER T2 (VReal (RBin 10 0)) = true
       /\ exists b, encode BER true 0 T2 (VReal (RBin 10 0)) = Ok b
                    /\ decode DER None b = Ok (DV T2 (VReal (RBin 5 1)), [])).
-Proof. cbv zeta. repeat split; try (vm_compute; reflexivity). eexists. split; vm_compute; reflexivity. Qed.
+Proof.
+  cbv zeta. repeat match goal with |- _ /\ _ => split end;
+    match goal with
+    | |- exists _, _ => eexists; split; vm_compute; reflexivity      (* never normalise under the binder *)
+    | |- _ => vm_compute; reflexivity
+    end.
+Qed.
 
 (* what is NOT self-describing or not known to the tag map is refused: an IMPLICIT tag, a string
    type the codec has no decoder for *)
